@@ -6,7 +6,7 @@ CODEC_FAMS_T = ['scalar', 'list', 'map', 'default', 'nocopy', 'unknown', 'ids', 
 JOBSETS = {
     'codec': {
         'gen': {'families': {'quick': CODEC_FAMS_Q, 'thorough': CODEC_FAMS_T},
-                'bounds': {'quick': '2,2,2,2', 'thorough': '3,3,3,3'}},
+                'bounds': {'quick': '2,2,2,2', 'thorough': '2,2,2,2'}},
         'kinds': ['codec'],
         'cfg': {'quick': {'timeout_s': 600, 'solver_timeout_ms': 10000}, 'thorough': {'timeout_s': 1800, 'solver_timeout_ms': 60000}},
         'wall': {'quick': 2400, 'thorough': 9000},
